@@ -3591,6 +3591,17 @@ class ExpectileGAM(GAM):
         # perform a first fit if necessary
         if not self._is_fitted:
             self.fit(X, y, weights=weights)
+        else:
+            y = check_y(y, self.link, self.distribution, verbose=self.verbose)
+            X = check_X(
+                X,
+                n_feats=self.statistics_['m_features'],
+                edge_knots=self.edge_knots_,
+                dtypes=self.dtype,
+                features=self.feature,
+                verbose=self.verbose,
+            )
+            check_X_y(X, y)
 
         # do binary search
         max_ = 1.0
